@@ -81,6 +81,7 @@ def lines (s : St) (early : Bool) : List String :=
 
 def parseVerdict (s : String) : Option Verdict :=
   if s == "multi" then some .multi else
+  if s == "panic" then some .panic else
   s.toInt?.map (fun c => if c == 0 then .accept else .reject c)
 
 def parseFin (s : String) : Option EndKind :=
